@@ -805,6 +805,42 @@ func genC12(g *G, sc *Scenario, tier string) {
 	sc.Datasets = c.Datasets
 	// flip-flop generator: small value alphabet makes v1, v2, v1 sequences frequent
 	ops := g.GenStoreHistory(c)
+	if g.P(0.5) {
+		// the story of one reference: a few batches, each with one to three versions of the same entity that carry the
+		// reference or not, are deleted or not, and differ in one property or not (versions of one batch share its stamp)
+		d, id, tgt, pred := g.Pick(c.Datasets), g.Pick(c.Pool), g.Pick(c.Pool), g.Pick(c.Preds)
+		var story []Op
+		// each version differs from the one before in one (sometimes two) of: carries the reference, is deleted, value
+		ref, del, val := true, false, "a"
+		left := g.Range(4, 7)
+		for left > 0 {
+			var ents []Ent
+			for k := g.Range(1, 3); k > 0 && left > 0; k-- {
+				e := Ent{"id": id, "props": map[string]any{c.PropKeys[0]: val}, "refs": map[string]any{}}
+				if ref {
+					e["refs"].(map[string]any)[pred] = tgt
+				}
+				if del {
+					e["deleted"] = true
+				}
+				ents = append(ents, e)
+				left--
+				for f := 1 + g.Intn(4)/3; f > 0; f-- {
+					switch g.Intn(3) {
+					case 0:
+						ref = !ref
+					case 1:
+						del = !del
+					default:
+						val = map[string]string{"a": "b", "b": "a"}[val]
+					}
+				}
+			}
+			story = append(story, Op{K: "batch", DS: d, Ents: ents})
+		}
+		at := g.Intn(len(ops) + 1)
+		ops = append(ops[:at:at], append(story, ops[at:]...)...)
+	}
 	marks := 0
 	for _, op := range ops {
 		sc.Ops = append(sc.Ops, op)
